@@ -4,5 +4,5 @@ Require Import ExtrOcamlBasic.
 From DV Require Import Lib.Base Registry.RegTypes Registry.Registry Limits.Limits.
 Extraction Language OCaml.
 Extraction "model_limits.ml"
-  linit lstep mkLimits queued_owners list_names reg
+  linit lstep cstep mkLimits queued_owners list_names reg
   s_ncomplete s_nincomplete s_byuser s_cdata s_rules s_pending s_conns.
